@@ -14,11 +14,11 @@ CHECKS = {
         note="trusts rustc's improper_ctypes lint, the type checker, and the driver's fact printing; traits outside the corpus grammar are not covered",
         ref="4 C03"),
     "C09": dict(
-        cat="proof",
+        cat="other",
         technique="rustc trait solver (Send/Sync/Opaquable + OpaqueTarget normalisation) over a complete wrapper x handle x context x payload matrix",
         text="the compiler's trait solver decides every cell of the finite matrix named by the property (every Opaquable impl in cglue and in generated "
              "code x payloads {Send,!Send}x{Sync,!Sync} x {Send,Sync}); a cell violates iff the opaque target has a marker the source lacks. 11 cells "
-             "violate on the pinned tree and are recorded as known findings; the evidence file reports level `other` while findings are open.",
+             "violate on the pinned tree and are recorded as known findings, which is why the claim is `other` and not `proof`: the matrix is decided completely, but the property does not hold on it.",
         note="trusts rustc's trait solver; payload classes are represented by u8 / Cell<u8> / MutexGuard<u8> / Rc<u8> newtypes",
         ref="4 C09"),
     "C04": dict(
